@@ -415,26 +415,25 @@ def stepCollection (x : Ectx) (env : Env) (c : Nat) (rest : List Nat) (o : T) : 
     | some _ => .ok { cur := some ⟨nx, .object⟩, push := [⟨nx, .collContinue⟩], emit := some (mkStmt x o),
                       inp := c :: rest, env := env }
 
+/-- tail of the verb branches of `reader_scan_PredicateObjectList` -/
+def polGo (x : Ectx) (p : T) (inp : List Nat) (env : Env) : FnRes :=
+  let x' := { x with pred := some p }
+  .ok { cur := some ⟨x', .object⟩, push := [⟨x', .objListContinue⟩], inp := inp, env := env }
+
+def polOfTerm (x : Ectx) : TermRes → FnRes
+  | .panic => .panic
+  | .err k => .err k
+  | .ok p r env' => polGo x p r env'
+
 /-- `reader_scan_PredicateObjectList` on a rune. -/
 def stepPOL (C : Cfg) (e : End) (x : Ectx) (env : Env) (c : Nat) (rest : List Nat) : FnRes :=
-  let go (p : T) (inp : List Nat) (env : Env) : FnRes :=
-    let x' := { x with pred := some p }
-    .ok { cur := some ⟨x', .object⟩, push := [⟨x', .objListContinue⟩], inp := inp, env := env }
-  let viaPName : FnRes :=
-    match termPName C e env (c :: rest) with
-    | .panic => .panic
-    | .err k => .err k
-    | .ok p r env' => go p r env'
-  if c = 0x3c then
-    match termIRIREF C e env (c :: rest) with
-    | .panic => .panic
-    | .err k => .err k
-    | .ok p r env' => go p r env'
+  if c = 0x3c then polOfTerm x (termIRIREF C e env (c :: rest))
   else if c = 0x61 then                              -- 'a'
     match rest with
     | [] => .err (endCls e)
-    | r1 :: rest1 => if !C.isSpace r1 then viaPName else go (.iri rdfType) rest1 env
-  else if c = 0x3a ∨ C.pnBase c then viaPName
+    | r1 :: rest1 =>
+      if !C.isSpace r1 then polOfTerm x (termPName C e env (c :: rest)) else polGo x (.iri rdfType) rest1 env
+  else if c = 0x3a ∨ C.pnBase c then polOfTerm x (termPName C e env (c :: rest))
   else .ok { inp := c :: rest, env := env }
 
 /-- The literal part of `reader_scan_Object` after the string token: optional LANGTAG or `^^` iri. -/
@@ -462,18 +461,21 @@ def stepLiteralTail (C : Cfg) (e : End) (x : Ectx) (env : Env) (lex : List Nat) 
             | .ok dt r => .ok { emit := some (mkStmt x (.lit lex dt none)), inp := r, env := env }
     else .ok { emit := some (mkStmt x (.lit lex xsdString none)), inp := c :: rest0, env := env }
 
+/-- emit `(CurSubject, CurPredicate, term)` -/
+def emitOfTerm (x : Ectx) : TermRes → FnRes
+  | .panic => .panic
+  | .err k => .err k
+  | .ok o r env' => .ok { emit := some (mkStmt x o), inp := r, env := env' }
+
+def emitOfNumeric (x : Ectx) (env : Env) : Ttl.Res (Ttl.NumKind × List Nat) → FnRes
+  | .panic => .panic
+  | .err k => .err (ofTok k)
+  | .ok (kind, lex) r => .ok { emit := some (mkStmt x (.lit lex kind.datatype none)), inp := r, env := env }
+
 /-- `reader_scan_Object` on a rune. -/
 def stepObject (C : Cfg) (e : End) (x : Ectx) (env : Env) (c : Nat) (rest : List Nat) : FnRes :=
-  if c = 0x3c then
-    match termIRIREF C e env (c :: rest) with
-    | .panic => .panic
-    | .err k => .err k
-    | .ok o r env' => .ok { emit := some (mkStmt x o), inp := r, env := env' }
-  else if c = 0x5f then
-    match termBNode C e env (c :: rest) with
-    | .panic => .panic
-    | .err k => .err k
-    | .ok o r env' => .ok { emit := some (mkStmt x o), inp := r, env := env' }
+  if c = 0x3c then emitOfTerm x (termIRIREF C e env (c :: rest))
+  else if c = 0x5f then emitOfTerm x (termBNode C e env (c :: rest))
   else if c = 0x28 then .ok { cur := some ⟨x, .collOpenObj⟩, inp := rest, env := env }
   else if c = 0x5b then
     let (bn, env') := env.fresh
@@ -486,16 +488,12 @@ def stepObject (C : Cfg) (e : End) (x : Ectx) (env : Env) (c : Nat) (rest : List
     | .err k => .err (ofTok k)
     | .ok lex r => stepLiteralTail C e x env lex r
   else if c = 0x2b ∨ c = 0x2d ∨ (0x30 ≤ c ∧ c ≤ 0x39) ∨ c = 0x2e then
-    let num : FnRes :=
-      match C.P.numeric e (c :: rest) with
-      | .panic => .panic
-      | .err k => .err (ofTok k)
-      | .ok (kind, lex) r => .ok { emit := some (mkStmt x (.lit lex kind.datatype none)), inp := r, env := env }
     if c = 0x2e then
       match rest with
       | [] => .err (endCls e)
-      | r1 :: _ => if r1 < 0x30 ∨ r1 > 0x39 then .err .syntax else num
-    else num
+      | r1 :: _ =>
+        if r1 < 0x30 ∨ r1 > 0x39 then .err .syntax else emitOfNumeric x env (C.P.numeric e (c :: rest))
+    else emitOfNumeric x env (C.P.numeric e (c :: rest))
   else if c = 0x74 ∨ c = 0x66 then                   -- 't' 'f'
     match C.P.boolean e (c :: rest) with
     | .err k => .err (ofTok k)
@@ -656,11 +654,7 @@ def stepFn (C : Cfg) (e : End) (k : Cont) (x : Ectx) (env : Env) (a : Arg) : FnR
   | .objectPName =>
     match a with
     | .fail => .err (endCls e)
-    | .rune c rest =>
-      match termPName C e env (c :: rest) with
-      | .panic => .panic
-      | .err t => .err t
-      | .ok o r env' => .ok { emit := some (mkStmt x o), inp := r, env := env' }
+    | .rune c rest => emitOfTerm x (termPName C e env (c :: rest))
   | .collOpenObj =>
     match a with
     | .fail => .err (endCls e)
@@ -784,22 +778,26 @@ inductive ScanRes where
   | err (e : EClass)
   | panic
 
-/-- `r.scan(ectx, fn)` applied to the state (stack without the frame being run). -/
+/-- `r.scan(ectx, fn)`: skip white space and comments, then call the scan function. -/
+def scanFn (C : Cfg) (e : End) (f : Frame) (inp : List Nat) (env : Env) : FnRes :=
+  match skipWs C e false inp with
+  | .commentIo => .err .io
+  | .end_ => stepFn C e f.k f.x env .fail
+  | .rune c rest => stepFn C e f.k f.x env (.rune c rest)
+
+/-- The effects of a scan-function call on the decoder (stack without the frame being run). -/
+def applyOut (st : St) (o : Out) : St :=
+  { st with
+    stack := if o.term then [] else o.push.reverse ++ st.stack
+    inp := o.inp
+    env := o.env
+    stmts := st.stmts ++ o.emit.toList }
+
 def scan (C : Cfg) (e : End) (f : Frame) (st : St) : ScanRes :=
-  let r : FnRes :=
-    match skipWs C e false st.inp with
-    | .commentIo => .err .io
-    | .end_ => stepFn C e f.k f.x st.env .fail
-    | .rune c rest => stepFn C e f.k f.x st.env (.rune c rest)
-  match r with
+  match scanFn C e f st.inp st.env with
   | .panic => .panic
   | .err k => .err k
-  | .ok o =>
-    .ok o.cur { st with
-      stack := if o.term then [] else o.push.reverse ++ st.stack
-      inp := o.inp
-      env := o.env
-      stmts := st.stmts ++ o.emit.toList }
+  | .ok o => .ok o.cur (applyOut st o)
 
 inductive NextRes where
   | yes (st : St)      -- Next() = true
@@ -808,24 +806,29 @@ inductive NextRes where
   | outOfFuel
   deriving Repr
 
+/-- `rsNext` if set, else the top of the stack (popped). -/
+def popFrame (cur : Option Frame) (st : St) : Option (Frame × St) :=
+  match cur with
+  | some f => some (f, st)
+  | none =>
+    match st.stack with
+    | [] => none
+    | f :: s => some (f, { st with stack := s })
+
+/-- `if rsNext.fn != nil { r.pushState(rsNext.ectx, rsNext.fn) }` -/
+def pushCur (cur : Option Frame) (st : St) : St :=
+  match cur with
+  | some f => { st with stack := f :: st.stack }
+  | none => st
+
 /-- The `for` loop of `Next`. `cur` is `rsNext` (`none` ⇔ `rsNext.fn == nil`). -/
 def nextLoop (C : Cfg) (e : End) : Nat → Option Frame → St → NextRes
   | 0, _, _ => .outOfFuel
   | fuel + 1, cur, st =>
     if st.err.isSome then .no st
-    else if !st.stmts.isEmpty then
-      .yes (match cur with
-        | some f => { st with stack := f :: st.stack }
-        | none => st)
+    else if !st.stmts.isEmpty then .yes (pushCur cur st)
     else
-      let popped : Option (Frame × St) :=
-        match cur with
-        | some f => some (f, st)
-        | none =>
-          match st.stack with
-          | [] => none
-          | f :: s => some (f, { st with stack := s })
-      match popped with
+      match popFrame cur st with
       | none => .no st
       | some (f, st1) =>
         match scan C e f st1 with
